@@ -662,7 +662,7 @@ def run_case(ib, rec, case, rng_mod):
             w = F(rng.randint(1, 15), 16)
             x = float(F(fv[k]) + w * (F(fv[k + 1]) - F(fv[k])))
             wex = (F(x) - F(fv[k])) / (F(fv[k + 1]) - F(fv[k]))
-            case["lerp"].append({"k": k, "other": k + 1, "w": wex, "scale": 1.0, "src": "interpolators1d_fractional@%r" % x,
+            case["lerp"].append({"k": k, "other": k + 1, "w": wex, "x": x, "knots": [float(v) for v in fv], "scale": 1.0, "src": "interpolators1d_fractional@%r" % x,
                                  "values": [float(itp[c](x)) for c in range(z + 1)]})
         itp = ib.interpolators1d_from_elementdensity(ad, el, fv.copy(), nel_rep, ne_rep, te_rep, *donor_args, **dk)
         add("dens", "interpolators1d_from_elementdensity@knots",
@@ -706,12 +706,12 @@ def run_case(ib, rec, case, rng_mod):
             k = ks[0]
             wex = (F(ps) - F(fv[k])) / (F(fv[k + 1]) - F(fv[k]))
             if len(case["lerp"]) % 2 == 0:
-                case["lerp"].append({"k": k, "other": k + 1, "w": wex, "scale": 1.0,
+                case["lerp"].append({"k": k, "other": k + 1, "w": wex, "x": ps, "knots": [float(v) for v in fv], "scale": 1.0,
                                      "src": "equilibrium_map3d_fractional@(%r,0,%r)" % (r, zz),
                                      "values": [float(m3[c](r, 0.0, zz)) for c in range(z + 1)]})
             else:
                 # densities: linear interpolation of f_k * n_el_k; compare through the two knots' models
-                case["lerp"].append({"k": k, "other": k + 1, "w": wex, "scale": None, "n_el": (nel_list[k], nel_list[k + 1]),
+                case["lerp"].append({"k": k, "other": k + 1, "w": wex, "x": ps, "knots": [float(v) for v in fv], "scale": None, "n_el": (nel_list[k], nel_list[k + 1]),
                                      "src": "equilibrium_map3d_from_elementdensity@(%r,0,%r)" % (r, zz),
                                      "values": [float(md[c](r, 0.0, zz)) for c in range(z + 1)]})
         mn = ib.equilibrium_map3d_match_plasma_neutrality(ad, el, eq, fv.copy(), species_reps, ne_rep, te_rep, *donor_args, **dk)
@@ -814,3 +814,63 @@ def run_case(ib, rec, case, rng_mod):
             vals = [float(np.asarray(out[c]).reshape(-1)[0]) for c in range(z + 1)]
             pt["outs"].insert(0, {"kind": "frac", "src": "fractional_abundance[scalar call at this point]", "values": vals, "coq": False})
     return points
+
+
+# ---------------------------------------------------------------------------------------------
+# argument policy of fractional_abundance: every combination of argument forms, run on the implementation; the
+# expected outcome is computed by the Coq model (Model/C09_Interp.fractional_args)
+# ---------------------------------------------------------------------------------------------
+def policy_table(ib):
+    import itertools
+    from raysect.core.math.function.float import Arg2D
+    ad = make_stub("policy", 1e-14, 1.0)
+    el, h = element(2), element(1)
+
+    def mk(kind, lo):
+        if kind == "scalar":
+            return lo * 2.0, "AScalar"
+        if kind == "a3":
+            return np.array([1., 2., 3.]) * lo, "(AArray [3%nat])"
+        if kind == "a23":
+            return np.outer([1., 2.], [1., 2., 3.]) * lo, "(AArray [2%nat; 3%nat])"
+        if kind == "a0":
+            return np.array(2.0 * lo), "(AArray [])"
+        if kind == "a1":
+            return np.array([2.0 * lo]), "(AArray [1%nat])"
+        if kind == "fun1":
+            return _arg1d(lo, lo), "AFun1"
+        if kind == "fun2":
+            return lo + lo * Arg2D('x') + 0 * Arg2D('y'), "AFun2"
+        if kind == "list":
+            return [lo, 2 * lo, 3 * lo], "AOther"
+        raise AssertionError(kind)
+
+    fvs = {"none": (None, "FNone"), "scalar": (0.5, "FScalar"), "f3": (np.array([0., 1., 2.]), "(F1 3)"),
+           "f23": ((np.array([0., 1.]), np.array([0., 1., 2.])), "(F2 2 3)")}
+    kinds = ["scalar", "a3", "a23", "a0", "a1", "fun1", "fun2", "list"]
+    rows = []
+    for nek, tek, ndk, fvk in itertools.product(kinds, kinds, ["none", "scalar", "a3", "a23", "fun1", "fun2", "a1"], list(fvs)):
+        ne, cne = mk(nek, 1e18)
+        te, cte = mk(tek, 10.0)
+        nd, cnd = (None, "None") if ndk == "none" else mk(ndk, 1e17)
+        if ndk != "none":
+            cnd = "(Some %s)" % cnd
+        fv, cfv = fvs[fvk]
+        kw = {} if fv is None else {"free_variable": fv if not isinstance(fv, tuple) else (fv[0].copy(), fv[1].copy())}
+        try:
+            out = ib.fractional_abundance(ad, el, ne, te, h, nd, 0, **kw)
+            res = [1] + [int(v) for v in np.asarray(out[0]).shape]
+            if sorted(out) != [0, 1, 2] or any(np.asarray(out[c]).shape != np.asarray(out[0]).shape for c in out):
+                res = [9]
+        except ValueError:
+            res = [2]
+        except Exception:
+            res = [3]
+        rows.append({"form": "n_e=%s t_e=%s tcx_donor_n=%s free_variable=%s" % (nek, tek, ndk, fvk), "impl": res,
+                     "coq": "fractional_args %s %s %s %s" % (cfv, cne, cte, cnd)})
+    keys = {}
+    for zz in (1, 2, 7, 18):
+        e = element(zz)
+        keys[zz] = ([int(k) for k in ib.get_rates_ionisation(ad, e)], [int(k) for k in ib.get_rates_recombination(ad, e)],
+                    [int(k) for k in ib.get_rates_tcx(ad, h, 0, e)])
+    return rows, keys
